@@ -5,6 +5,16 @@ Model: `Strophe.Conn` (Model/Conn.lean: `retire` = the bookkeeping of event.c af
 `smHandleStanza` = `_conn_sm_handle_stanza`, `handleSm` = `_handle_sm`, `smQueueResend`), tied to the
 code by engine `conn`.  Ghost data: `TxRec.smNum` (the number an element was retained under when it was
 written).  Model-free counterpart: `check/props/conn_mon.py: monitor_sm(…, "C04")`.
+
+Statements that differ from their first formulation (details at the theorems in Lemmas/ConnC04*.lean):
+  * `contiguous_while_resumable`: "resumable" is `previd ∧ bound JID` (the condition of the C code), not
+    `previd` alone — counterexample `stale_previd_not_resumable` below;
+  * `resumed_retransmits_exactly`, `enabled_resends_all`: hypothesis `hq` (no `<r/>` among the retained
+    elements) added; it holds in every reachable state (`retained_are_no_requests`);
+  * `retained_only_released_by_h`: stated for reachable states (false of two kinds of unreachable
+    states); `retained_only_released_by_h_step` is the step-level form under explicit well-formedness
+    hypotheses; the alternative "written in the same step" was dropped (it never occurs).
+Known finding D52 (not repaired): `resend_lost_on_second_loss`.
 -/
 import Strophe.Lemmas.ConnC04
 
@@ -13,6 +23,8 @@ open Strophe Strophe.Conn Strophe.Lemmas.ConnC04
 
 /-- the element the library interleaves to request acknowledgements is the extracted constant -/
 theorem pin_req_ack : Gen.reqAck = b "<r xmlns='urn:xmpp:sm:3'/>" := by decide
+
+/-! ### numbering -/
 
 theorem retire_counts (c : Conn) (e : QElem) :
     let c' := retire c e
@@ -33,16 +45,35 @@ theorem contiguous_numbers (jid pass : Option Bytes) (cert : Bool) (flags : Nat)
     c.sm.enabled = true → smPending c = false → Contig c.sm :=
   Lemmas.ConnC04.contiguous_numbers jid pass cert flags ops
 
+/- first formulation (false, see `stale_previd_not_resumable`):
+     (c.sm.id.isSome = true ∨ c.sm.previd.isSome = true) → Contig c.sm -/
 theorem contiguous_while_resumable (jid pass : Option Bytes) (cert : Bool) (flags : Nat) (ops : List Op) :
     let c := exec (fresh jid pass cert flags) ops
     (c.sm.id.isSome = true ∨ (c.sm.previd.isSome = true ∧ c.sm.boundJid.isSome = true)) → Contig c.sm :=
   Lemmas.ConnC04.contiguous_while_resumable jid pass cert flags ops
+
+/-! ### retention -/
 
 theorem retained_were_written (jid pass : Option Bytes) (cert : Bool) (flags : Nat) (ops : List Op) :
     ∀ x ∈ (exec (fresh jid pass cert flags) ops).sm.queue,
       ∃ r ∈ (exec (fresh jid pass cert flags) ops).tx, r.smNum = some x.1 ∧ r.item = x.2.item :=
   Lemmas.ConnC04.retained_were_written jid pass cert flags ops
 
+theorem retained_are_user_items (jid pass : Option Bytes) (cert : Bool) (flags : Nat)
+    (ops : List Op) (hu : userOps ops) :
+    ∀ x ∈ (exec (fresh jid pass cert flags) ops).sm.queue, x.2.item.isUserItem = true :=
+  Lemmas.ConnC04.retained_are_user_items jid pass cert flags ops hu
+
+/-- the hypothesis `hq` of `resumed_retransmits_exactly` and `enabled_resends_all` in reachable states -/
+theorem retained_are_no_requests (jid pass : Option Bytes) (cert : Bool) (flags : Nat)
+    (ops : List Op) (hu : userOps ops) :
+    ∀ x ∈ (exec (fresh jid pass cert flags) ops).sm.queue, x.2.item ≠ .req :=
+  Lemmas.ConnC04.retained_are_no_requests jid pass cert flags ops hu
+
+/- first formulation: for every `c : Conn`, with the further alternative
+     (∃ r ∈ ((step c op).tx.drop c.tx.length), r.item = x.2.item ∧ r.owner = x.2.owner)
+   Known finding D52 lives in the third alternative ("put back into the send queue"): what is queued for
+   retransmission is no longer retained, and the send queue does not survive the next `connReset`. -/
 theorem retained_only_released_by_h (jid pass : Option Bytes) (cert : Bool) (flags : Nat) (ops : List Op)
     (op : Op) (x : UInt32 × QElem) :
     let c := exec (fresh jid pass cert flags) ops
@@ -52,6 +83,21 @@ theorem retained_only_released_by_h (jid pass : Option Bytes) (cert : Bool) (fla
     (∃ e ∈ (step c op).queue, e.item = x.2.item ∧ e.owner = x.2.owner ∧ e.snap = x.2.snap) :=
   Lemmas.ConnC04.retained_only_released_by_h jid pass cert flags ops op x
 
+/-- step-level form: any state with well-formed handler lists (`HW`, in particular `_handle_features`
+    only under the element name "features") and an XEP-0198 record -/
+theorem retained_only_released_by_h_step (c : Conn) (hw : HW c) (hsm : c.hasSm = true) (op : Op)
+    (x : UInt32 × QElem) (hx : x ∈ c.sm.queue) (hop : match op with | .release => False | _ => True) :
+    x ∈ (step c op).sm.queue ∨
+    (∃ hv, carriesH op hv ∧ x.1.toNat < hv) ∨
+    (∃ e ∈ (step c op).queue, e.item = x.2.item ∧ e.owner = x.2.owner ∧ e.snap = x.2.snap) :=
+  Lemmas.ConnC04.retained_only_released_by_h_step c hw hsm op x hx hop
+
+theorem handlers_well_formed (jid pass : Option Bytes) (cert : Bool) (flags : Nat) (ops : List Op) :
+    HW (exec (fresh jid pass cert flags) ops) :=
+  Lemmas.ConnC04.handlers_well_formed jid pass cert flags ops
+
+/-! ### release by acknowledgement -/
+
 theorem ack_releases_exactly (c : Conn) (st : XTree) (v : Nat)
     (hns : st.ns? = some Gen.nsSm) (hname : st.name? = some (b "a"))
     (hh : (st.attr (b "h")).map stringToUl = some (v, false))
@@ -60,6 +106,8 @@ theorem ack_releases_exactly (c : Conn) (st : XTree) (v : Nat)
     (smHandleStanza c st).sm.sentNr = c.sm.sentNr ∧
     (smHandleStanza c st).queue = c.queue :=
   Lemmas.ConnC04.ack_releases_exactly c st v hns hname hh hc hw
+
+/-! ### resumption -/
 
 theorem resumed_retransmits_exactly (c : Conn) (st : XTree) (ours : Bytes) (v : Nat)
     (hname : st.name? = some (b "resumed")) (hp : c.sm.previd = some ours)
@@ -87,5 +135,143 @@ theorem enabled_resends_all (c : Conn) (st : XTree)
     payload c'.queue = payload c.queue ++ c.sm.queue.map (·.2.item) ∧ c'.sm.queue = [] ∧
     c'.sm.sentNr = c.sm.sentNr :=
   Lemmas.ConnC04.enabled_resends_all c st hname hen hstate hid hq
+
+/-! ### non-vacuity, end-to-end examples, counterexamples -/
+
+def featuresPlain : XTree :=
+  .tag (b "features") (some Gen.nsStreams) []
+    [.tag (b "mechanisms") (some Gen.nsSasl) [] [.tag (b "mechanism") (some Gen.nsSasl) [] [.text (b "PLAIN")]]]
+def featuresBindSm : XTree :=
+  .tag (b "features") (some Gen.nsStreams) []
+    [.tag (b "bind") (some Gen.nsBind) [] [], .tag (b "sm") (some Gen.nsSm) [] []]
+/-- the answer to the bind request, with or without the bound JID -/
+def bindResult (withJid : Bool) : XTree :=
+  .tag (b "iq") (some Gen.nsClient) [(b "id", b "_xmpp_bind1"), (b "type", b "result")]
+    (if withJid then
+      [.tag (b "bind") (some Gen.nsBind) [] [.tag (b "jid") (some Gen.nsBind) [] [.text (b "user@example.org/r")]]]
+     else [])
+def enabledR : XTree := .tag (b "enabled") (some Gen.nsSm) [(b "id", b "sm1"), (b "resume", b "true")] []
+def ackH (h : String) : XTree := .tag (b "a") (some Gen.nsSm) [(b "h", b h)] []
+def resumedH (h : String) : XTree := .tag (b "resumed") (some Gen.nsSm) [(b "previd", b "sm1"), (b "h", b h)] []
+def success : XTree := .tag (b "success") (some Gen.nsSasl) [] []
+def umsg (id : String) : Item := .user (b "message") (some (b id))
+def me : Option Bytes := some (b "user@example.org/r")
+def pw : Option Bytes := some (b "secret")
+
+/-- connect, authenticate, open the second stream: up to the features that offer bind and sm -/
+def toFeatures : List Op :=
+  [.connect .client, .run .none, .run .none,
+   .run (.data [.open_ (b "stream") (some (b "s1")), .stanza featuresPlain]),
+   .run (.data [.stanza success]),
+   .run (.data [.open_ (b "stream") (some (b "s2")), .stanza featuresBindSm])]
+/-- a login that ends with stream management enabled, resumable -/
+def loginSm (withJid : Bool) : List Op :=
+  toFeatures ++ [.run (.data [.stanza (bindResult withJid)]), .run (.data [.stanza enabledR])]
+/-- three stanzas written (#0, #1, #2), `<a h='1'/>`, the connection is lost, reconnect up to the
+    features (`<resume/>` is queued) -/
+def threeThenLoss : List Op :=
+  loginSm true ++ [.usend (umsg "m0"), .usend (umsg "m1"), .usend (umsg "m2"), .run .none,
+    .run (.data [.stanza (ackH "1")]), .run .ioerr] ++ toFeatures
+
+/-- a decidable check of `userOps` -/
+def userOpsB (ops : List Op) : Bool :=
+  ops.all fun op => match op with
+    | .usend it | .uraw it | .urawstr it => it.isUserItem
+    | _ => true
+
+theorem userOps_of_B {ops : List Op} (h : userOpsB ops = true) : userOps ops := by
+  intro op hop
+  have := List.all_eq_true.1 h op hop
+  cases op <;> first | trivial | exact this
+
+theorem threeThenLoss_userOps : userOps threeThenLoss := userOps_of_B (by decide)
+
+set_option maxRecDepth 100000 in
+/-- the session: #0 was released by `<a h='1'/>`, #1 and #2 are retained, consecutive, no wrap; the
+    resumption is pending (the hypotheses of `contiguous_while_resumable`, `retained_were_written`,
+    `only_user_stanzas_numbered` and — for `<resumed h='2'/>` — of `resumed_retransmits_exactly` hold) -/
+example :
+    let c := exec (fresh me pw false 0) threeThenLoss
+    c.state = .connected ∧ c.sm.previd = some (b "sm1") ∧ c.sm.boundJid.isSome = true ∧
+    c.sm.queue.map (fun x => (x.1, x.2.item)) = [(1, umsg "m1"), (2, umsg "m2")] ∧ c.sm.sentNr = 3 ∧
+    NoWrap c.sm ∧ (c.sm.sentNr.toNat - c.sm.queue.length ≤ 2 ∧ 2 ≤ c.sm.sentNr.toNat) ∧
+    getH (resumedH "2") = some 2 ∧
+    (c.tx.filterMap fun r => r.smNum.map fun n => (n, r.item)) = [(0, umsg "m0"), (1, umsg "m1"), (2, umsg "m2")] := by
+  decide
+
+set_option maxRecDepth 100000 in
+/-- … so the retained numbers are consecutive there (an instance of `contiguous_while_resumable`) -/
+example : Contig (exec (fresh me pw false 0) threeThenLoss).sm :=
+  contiguous_while_resumable me pw false 0 threeThenLoss (.inr ⟨by decide, by decide⟩)
+
+set_option maxRecDepth 100000 in
+/-- END TO END: `<resumed h='2'/>` — exactly stanza #2 is sent again, before anything new; the counter
+    continues at 2; the next stanza of the application is #3 -/
+example :
+    let c := exec (fresh me pw false 0)
+      (threeThenLoss ++ [.run (.data [.stanza (resumedH "2")]), .usend (umsg "m3"), .run .none])
+    c.sm.enabled = true ∧ smPending c = false ∧
+    (c.tx.filterMap fun r => r.smNum.map fun n => (n, r.item)) =
+      [(0, umsg "m0"), (1, umsg "m1"), (2, umsg "m2"), (2, umsg "m2"), (3, umsg "m3")] ∧
+    c.sm.queue.map (fun x => (x.1, x.2.item)) = [(2, umsg "m2"), (3, umsg "m3")] ∧ c.sm.sentNr = 4 := by
+  decide
+
+set_option maxRecDepth 100000 in
+/-- the hypotheses of `contiguous_numbers` are satisfiable with a non-empty retained queue -/
+example :
+    let c := exec (fresh me pw false 0)
+      (threeThenLoss ++ [.run (.data [.stanza (resumedH "2")]), .usend (umsg "m3"), .run .none])
+    c.sm.enabled = true ∧ smPending c = false ∧ c.sm.queue.length = 2 := by
+  decide
+
+set_option maxRecDepth 100000 in
+/-- the step-level theorems apply at the moment `<resumed h='2'/>` is handled: `handleSm` runs in a
+    connected state with these very hypotheses, and puts exactly #2 back -/
+example :
+    let c := exec (fresh me pw false 0) (threeThenLoss ++ [.run .none])
+    c.state = .connected ∧ c.sm.previd = some (b "sm1") ∧ c.queue = [] ∧
+    payload (handleSm c (resumedH "2")).queue = [umsg "m2"] ∧ (handleSm c (resumedH "2")).sm.sentNr = 2 := by
+  decide
+
+/-- COUNTEREXAMPLE to the first formulation of `contiguous_while_resumable`: the bind result of the
+    first session carried no JID, so the old session cannot be resumed after the loss; the library
+    binds again and `<enable/>` restarts the numbering at 0 — while the stale `previd` and the retained
+    element #0 are still there (it is sent again when `<enabled/>` arrives) -/
+def stalePrevid : List Op :=
+  loginSm false ++ [.usend (umsg "m0"), .run .none, .run .ioerr] ++ toFeatures ++
+  [.run (.data [.stanza (bindResult false)])]
+
+set_option maxRecDepth 100000 in
+theorem stale_previd_not_resumable :
+    let c := exec (fresh me pw false 0) stalePrevid
+    c.sm.previd = some (b "sm1") ∧ c.sm.boundJid = none ∧ c.sm.enabled = true ∧ smPending c = true ∧
+    c.sm.sentNr = 0 ∧ c.sm.queue.map (·.1) = [0] ∧ c.protoViol = 0 ∧
+    ¬ ((c.sm.queue[0]?).map (fun x => x.1 + UInt32.ofNat 1) = some c.sm.sentNr) := by
+  decide
+
+set_option maxRecDepth 100000 in
+/-- … which contradicts `Contig` -/
+theorem stale_previd_not_contig : ¬ Contig (exec (fresh me pw false 0) stalePrevid).sm := by
+  decide
+
+/-- KNOWN FINDING D52 (corpus/C04/d52_resend_lost_on_second_loss.ops), on the model: a stanza written as
+    #0 and never acknowledged (the server's `h` stays 0) is put back into the send queue by the first
+    `<resumed h='0'/>` while the transport accepts nothing; the connection is lost again; the next
+    connect empties the send queue (`_conn_reset`); the second `<resumed h='0'/>` finds nothing
+    retained.  In the final state the stanza is neither retained nor queued, and it was written once. -/
+def secondLoss : List Op :=
+  loginSm true ++ [.usend (umsg "m1"), .run .none, .run .eof] ++ toFeatures ++
+  [.setSched [] .again, .run (.data [.stanza (resumedH "0")]), .run .eof, .setSched [] .all] ++ toFeatures ++
+  [.run (.data [.stanza (resumedH "0")]), .run .none, .run .none]
+
+set_option maxRecDepth 100000 in
+theorem resend_lost_on_second_loss :
+    let c := exec (fresh me pw false 0) secondLoss
+    (c.tx.filterMap fun r => match r.item with | .user _ i => some (i, r.smNum) | _ => none) = [(some (b "m1"), some 0)] ∧
+    c.sm.queue = [] ∧ c.queue = [] ∧ c.state = .connected ∧ c.sm.enabled = true ∧ c.protoViol = 0 ∧
+    -- after the first resumption the stanza was in the send queue, no longer retained
+    (let c1 := exec (fresh me pw false 0) (secondLoss.take 19)
+     c1.sm.queue = [] ∧ c1.queue.map (·.item) = [.resume (b "sm1") 0, umsg "m1", .req]) := by
+  decide
 
 end Strophe.C04
